@@ -566,7 +566,9 @@ def gen_rq(rng, tier, kind):
     while True:
         r = gen_qcow2.gen_recipe(rng, "quick", backing="raw", nsnaps=0)
         # the generator sized the header extensions for its own name: only replace a name that is at least as long as ours
-        if r.get("backing") and r["backing"]["kind"] == "raw" and len(r["backing_name"].encode()) >= 40:
+        # (the files of this family are written to a real directory: a raw backing image is materialised in full, so no huge disks)
+        if r.get("backing") and r["backing"]["kind"] == "raw" and len(r["backing_name"].encode()) >= 40 and r["size"] <= 64 << 20 \
+                and r["backing"].get("size", 0) <= 64 << 20:
             break
     r["backing_name"] = "base.img" if "_rel_" in kind else "{T}/base.img"
     return {"qcow2": r, "kind": kind, "decoy_seed": (r["backing"]["seed"] + 77) % 256}
